@@ -26,6 +26,7 @@ def run(ctx):
     ctx.assumptions = ["adapters vp/ops_cfdp.py build/project PDUs by constructor calls and attribute reads only",
                        "parameter sets are those the standard allows (fault location only with an error condition code)",
                        "oversize file-size-sensitive values must make packing fail with any exception"]
+    ctx.symbolic_laws(['Law_PduOctets', 'Law_BigEndian32'])
     ctx.replay_vectors("MC_Codec", "MC_Codec.cfg", perform, "grid", classify, consts='CONSTANT Area = "pdu"',
                        need_actions=("PickVector",))
     ctx.validate_events(events(ctx), "calls", classify, shard=1500)
